@@ -682,7 +682,15 @@ hwloc_alloc_membind(hwloc_topology_t topology, size_t len, hwloc_const_bitmap_t 
   if (flags & HWLOC_MEMBIND_BYNODESET) {
     ret = hwloc_alloc_membind_by_nodeset(topology, len, set, policy, flags);
   } else {
-    hwloc_nodeset_t nodeset = hwloc_bitmap_alloc();
+    hwloc_nodeset_t nodeset;
+    /* check flags and policy first, as the by-nodeset path does,
+     * an invalid cpuset must not hide them behind the non-strict fallback.
+     */
+    if ((flags & ~HWLOC_MEMBIND_ALLFLAGS) || hwloc__check_membind_policy(policy) < 0) {
+      errno = EINVAL;
+      return NULL;
+    }
+    nodeset = hwloc_bitmap_alloc();
     if (hwloc_fix_membind_cpuset(topology, nodeset, set)) {
       if (flags & HWLOC_MEMBIND_STRICT)
 	ret = NULL;
